@@ -152,3 +152,177 @@ Proof.
   destruct Hsh as [-> | ->], Hrb as [-> | ->]; cbn [Z.add]; change ((0+0) mod 2) with 0; change ((0 + 1) mod 2) with 1;
       change ((1 + 0) mod 2) with 1; change ((1+1) mod 2) with 0; lia.
 Qed.
+
+(* ---------------------------------------------------------------- the model of TruncateMPC2K, simplified *)
+Lemma pow2_half w : 1 <= w -> 2 ^ w = 2 * 2 ^ (w - 1).
+Proof. intros. replace w with ((w - 1) + 1) at 1 by lia. apply pow2_succ; lia. Qed.
+
+Lemma pow2_split w k : 0 <= k <= w -> 2 ^ w = 2 ^ k * 2 ^ (w - k).
+Proof. intros. replace w with (k + (w - k)) at 1 by lia. apply pow2_add; lia. Qed.
+
+Lemma r_msb_eq w r : 1 <= w ->
+  truncate w false (2 ^ (w - 1)) (andw w r (2 ^ (w - 1))) = (r mod 2 ^ w) / 2 ^ (w - 1).
+Proof.
+  intros Hw. unfold andw. rewrite land_top_bit by lia.
+  pose proof (pow2_pos w ltac:(lia)) as HM. pose proof (pow2_pos (w - 1) ltac:(lia)) as HH.
+  pose proof (Z.mod_pos_bound r (2 ^ w) HM) as Hr.
+  set (rM := r mod 2 ^ w) in *.
+  assert (Hq : 0 <= rM / 2 ^ (w - 1)) by (apply Z.div_pos; lia).
+  assert (Hle : rM / 2 ^ (w - 1) * 2 ^ (w - 1) <= rM) by (rewrite Z.mul_comm; apply Z.mul_div_le; lia).
+  rewrite truncate_u_small by nia. apply Z.div_mul; lia.
+Qed.
+
+Lemma r_trunc_eq w sg k r : 1 <= k <= w - 1 ->
+  truncate w sg (2 ^ k) (andw w r (2 ^ (w - 1) - 2 ^ k)) = ((r mod 2 ^ w) mod 2 ^ (w - 1)) / 2 ^ k.
+Proof.
+  intros Hk. unfold andw. rewrite land_pow2_range by lia.
+  pose proof (pow2_pos k ltac:(lia)) as HP. pose proof (pow2_pos (w - 1) ltac:(lia)) as HH.
+  pose proof (Z.mod_pos_bound (r mod 2 ^ w) (2 ^ (w - 1)) HH) as Hr.
+  set (rl := (r mod 2 ^ w) mod 2 ^ (w - 1)) in *.
+  assert (Hq : 0 <= rl / 2 ^ k) by (apply Z.div_pos; lia).
+  assert (Hle : rl / 2 ^ k * 2 ^ k <= rl) by (rewrite Z.mul_comm; apply Z.mul_div_le; lia).
+  rewrite truncate_nonneg by nia. apply Z.div_mul; lia.
+Qed.
+
+Lemma c_tm_eq w k c : 1 <= k <= w - 1 -> 0 <= c < 2 ^ w ->
+  andw w (truncate w false (2 ^ k) c) (2 ^ (w - 1 - k) - 1) = (c / 2 ^ k) mod 2 ^ (w - 1 - k).
+Proof.
+  intros Hk Hc. rewrite truncate_u_small by exact Hc. unfold andw. rewrite land_low_mask by lia.
+  pose proof (pow2_pos k ltac:(lia)) as HP.
+  rewrite (Z.mod_small (c / 2 ^ k)); [reflexivity|].
+  split; [apply Z.div_pos; lia|]. apply Z.le_lt_trans with c; [|lia].
+  apply Z.div_le_upper_bound; [lia|]. nia.
+Qed.
+
+Definition shift4 (w : Z) (sg : bool) : Z := if sg then 2 ^ (w - 2) else 0.
+Definition shiftk (w : Z) (sg : bool) (k : Z) : Z := if sg then 2 ^ (w - 2 - k) else 0.
+
+Lemma trunc2k_reveal_eq w sg k x0 x1 x2 r r0 rm0 rt0 y0 y2 :
+  trunc2k_admissible w sg k ->
+  let M := 2 ^ w in let H := 2 ^ (w - 1) in let P := 2 ^ k in let Q := 2 ^ (w - 1 - k) in
+  let c := (x0 + x1 + x2 + shift4 w sg + r) mod M in
+  let rb := (r mod M) / H in let rtr := ((r mod M) mod H) / P in
+  let cm := c / H in let ctm := (c / P) mod Q in
+  reveal w (trunc2k w sg k (x0, x1, x2) (r, r0, rm0, rt0, y0, y2))
+  = ((rb + cm - 2 * rb * cm) * Q - rtr + ctm - shiftk w sg k) mod M.
+Proof.
+  intros Hadm.
+  assert (Hk : 1 <= k <= w - 1) by (unfold trunc2k_admissible in Hadm; destruct sg; lia).
+  assert (HM : 0 < 2 ^ w) by (apply pow2_pos; lia).
+  assert (Hw1 : 1 <= w) by lia.
+  assert (Hwk : 0 <= w - 1 - k) by lia.
+  intros M H P Q c rb rtr cm ctm.
+  assert (Hc : addw w (addw w (addw w (if sg then addw w x0 (2 ^ (w - 2)) else x0) x1) r0) (addw w x2 (subw w r r0)) = c).
+  { unfold c, shift4, addw, subw. fold M. apply cong_intro. destruct sg; (rewrite_strat (topdown cong_mod)); apply cong_of_eq; ring. }
+  assert (Hcr : 0 <= c < 2 ^ w) by (apply Z.mod_pos_bound; exact HM).
+  unfold trunc2k, reveal.
+  rewrite Hc. rewrite r_msb_eq by exact Hw1. rewrite r_trunc_eq by exact Hk. rewrite c_tm_eq by assumption.
+  rewrite truncate_u_small by exact Hcr.
+  fold M H P Q. fold rb rtr cm ctm.
+  unfold shiftk, addw, subw, mulw. fold M. fold Q.
+  clear Hc Hcr. clearbody ctm cm rtr rb c Q P H M.
+  apply cong_intro. destruct sg; (rewrite_strat (topdown cong_mod)); apply cong_of_eq; ring.
+Qed.
+
+Lemma mod_mod_mul a P Q : 0 < P -> 0 < Q -> (a mod (P * Q)) mod P = a mod P.
+Proof.
+  intros HP HQ. rewrite Z.rem_mul_r by lia. rewrite (Z.mul_comm P), Z.mod_add by lia. apply Z.mod_mod; lia.
+Qed.
+
+Lemma trunc2k_arith (sg : bool) P Q F x r : 0 < P -> 0 < Q ->
+  (if sg then Q = 2 * F /\ 0 < F /\ - (P * F) <= x < P * F else F = 0 /\ 0 <= x < P * Q) ->
+  let H := P * Q in let M := 2 * H in
+  let c := (x + P * F + r) mod M in
+  let rb := (r mod M) / H in let rtr := ((r mod M) mod H) / P in
+  let cm := c / H in let ctm := (c / P) mod Q in
+  let v := (rb + cm - 2 * rb * cm) * Q - rtr + ctm - F in
+  v = x / P + (if P <=? x mod P + r mod P then 1 else 0) /\
+  (if sg then - F <= v <= F else 0 <= v <= Q).
+Proof.
+  intros HP HQ Hx.
+  assert (HX : 0 <= x + P * F < P * Q) by (destruct sg; nia).
+  assert (Hq : if sg then - F <= x / P < F else 0 <= x / P < Q).
+  { destruct sg.
+    - destruct Hx as (_ & HF & Hx). split.
+      + apply Z.div_le_lower_bound; lia.
+      + apply Z.div_lt_upper_bound; lia.
+    - destruct Hx as (_ & Hx). split; [apply Z.div_pos; lia|apply Z.div_lt_upper_bound; lia]. }
+  assert (HH : 0 < P * Q) by (apply Z.mul_pos_pos; assumption).
+  assert (Hrl : ((r mod (2 * (P * Q))) mod (P * Q)) mod P = r mod P).
+  { rewrite (Z.mul_comm 2), (mod_mod_mul r (P * Q) 2) by (assumption || reflexivity). apply mod_mod_mul; assumption. }
+  assert (HXP : (x + P * F) / P = x / P + F).
+  { rewrite (Z.mul_comm P), Z.div_add; [reflexivity|]. clear - HP; lia. }
+  assert (HXm : (x + P * F) mod P = x mod P).
+  { rewrite (Z.mul_comm P), Z.mod_add; [reflexivity|]. clear - HP; lia. }
+  pose proof (msb_core P Q (x + P * F) r HP HQ HX) as Hcore. cbv zeta in Hcore.
+  pose proof (div_add_carry P (x + P * F) ((r mod (2 * (P * Q))) mod (P * Q)) HP) as Hcarry.
+  rewrite Hrl, HXP, HXm in Hcarry.
+  intros H M c rb rtr cm ctm v.
+  assert (Hv : v = x / P + (if P <=? x mod P + r mod P then 1 else 0)).
+  { unfold v, ctm, cm, rtr, rb, c, M, H.
+    clear - Hcore Hcarry.
+    set (A := (r mod (2 * (P * Q)) / (P * Q) + (x + P * F + r) mod (2 * (P * Q)) / (P * Q) -
+      2 * (r mod (2 * (P * Q)) / (P * Q)) * ((x + P * F + r) mod (2 * (P * Q)) / (P * Q))) * Q) in *.
+    set (B := ((x + P * F + r) mod (2 * (P * Q)) / P) mod Q) in *.
+    set (C := (x + P * F + (r mod (2 * (P * Q))) mod (P * Q)) / P) in *.
+    set (D := (r mod (2 * (P * Q))) mod (P * Q) / P) in *.
+    set (E := if P <=? x mod P + r mod P then 1 else 0) in *.
+    set (G := x / P) in *.
+    clearbody A B C D E G. lia. }
+  split; [exact Hv|].
+  rewrite Hv. clear - Hq.
+  set (G := x / P) in *. clearbody G.
+  destruct (P <=? x mod P + r mod P); destruct sg; lia.
+Qed.
+
+(* ---------------------------------------------------------------- TruncateMPC2K: value of the revealed result *)
+Lemma pow2_quarter w : 2 <= w -> 2 ^ w / 4 = 2 ^ (w - 2).
+Proof.
+  intros. rewrite (pow2_split w 2) by lia. change (2 ^ 2) with 4.
+  rewrite Z.mul_comm, Z.div_mul by lia. reflexivity.
+Qed.
+Lemma pow2_halfdiv w : 1 <= w -> 2 ^ w / 2 = 2 ^ (w - 1).
+Proof.
+  intros. rewrite (pow2_split w 1) by lia. change (2 ^ 1) with 2.
+  rewrite Z.mul_comm, Z.div_mul by lia. reflexivity.
+Qed.
+
+Theorem trunc2k_value w sg k x0 x1 x2 m x :
+  trunc2k_admissible w sg k -> in_range2k w sg x ->
+  (x0 + x1 + x2) mod 2 ^ w = x mod 2 ^ w ->
+  sv w sg (reveal w (trunc2k w sg k (x0, x1, x2) m)) = x / 2 ^ k + carry2k k x (mask_r m).
+Proof.
+  intros Hadm Hx Hs. destruct m as [[[[[r r0] rm0] rt0] y0] y2]. cbn [mask_r].
+  rewrite trunc2k_reveal_eq by exact Hadm. cbv zeta.
+  assert (Hk : 1 <= k <= w - 1) by (unfold trunc2k_admissible in Hadm; destruct sg; lia).
+  assert (Hks : sg = true -> k <= w - 2) by (unfold trunc2k_admissible in Hadm; destruct sg; [lia|discriminate]).
+  pose proof (pow2_pos k ltac:(lia)) as HP. pose proof (pow2_pos (w - 1 - k) ltac:(lia)) as HQ.
+  assert (EH : 2 ^ (w - 1) = 2 ^ k * 2 ^ (w - 1 - k)) by (apply pow2_split; lia).
+  assert (EM : 2 ^ w = 2 * (2 ^ k * 2 ^ (w - 1 - k))) by (rewrite <- EH; apply pow2_half; lia).
+  assert (E4 : shift4 w sg = 2 ^ k * shiftk w sg k).
+  { unfold shift4, shiftk. destruct sg; [|lia]. specialize (Hks eq_refl).
+    replace (w - 2 - k) with ((w - 2) - k) by lia. apply pow2_split; lia. }
+  assert (Hr : if sg then 2 ^ (w - 1 - k) = 2 * shiftk w sg k /\ 0 < shiftk w sg k /\
+                         - (2 ^ k * shiftk w sg k) <= x < 2 ^ k * shiftk w sg k
+               else shiftk w sg k = 0 /\ 0 <= x < 2 ^ k * 2 ^ (w - 1 - k)).
+  { unfold in_range2k in Hx. destruct sg.
+    - specialize (Hks eq_refl). rewrite <- E4. unfold shift4, shiftk.
+      rewrite pow2_quarter in Hx by lia. split; [|split; [apply pow2_pos; lia|exact Hx]].
+      replace (w - 1 - k) with ((w - 2 - k) + 1) by lia. apply pow2_succ; lia.
+    - rewrite pow2_halfdiv in Hx by lia. rewrite <- EH. split; [reflexivity|exact Hx]. }
+  (* c depends on the shares only through x *)
+  assert (Hc : (x0 + x1 + x2 + shift4 w sg + r) mod 2 ^ w = (x + 2 ^ k * shiftk w sg k + r) mod 2 ^ w).
+  { rewrite <- E4. apply cong_intro. apply cong_of_mod_eq in Hs. rewrite Hs. reflexivity. }
+  rewrite Hc. clear Hc Hs.
+  rewrite EH, EM.
+  pose proof (trunc2k_arith sg (2 ^ k) (2 ^ (w - 1 - k)) (shiftk w sg k) x r HP HQ Hr) as [Hv Hb].
+  cbv zeta in Hv, Hb. unfold carry2k. rewrite <- Hv.
+  set (v := _ - shiftk w sg k) in *. clearbody v.
+  rewrite <- EM. rewrite sv_mod.
+  clear Hv Hr E4. destruct sg.
+  - apply sv_signed_small; [lia|]. specialize (Hks eq_refl).
+    assert (2 * shiftk w true k <= 2 ^ (w - 1)); [|lia].
+    unfold shiftk. replace (w - 1) with ((w - 2 - k) + (k + 1)) by lia. rewrite pow2_add by lia.
+    pose proof (pow2_pos (w - 2 - k) ltac:(lia)). rewrite pow2_succ by lia. nia.
+  - apply sv_unsigned_small. rewrite EM. nia.
+Qed.
